@@ -196,6 +196,15 @@ type userErr struct{ code int }
 
 func (e userErr) Error() string { return fmt.Sprintf("user error %d", e.code) }
 
+// error code 99: the user function's error WRAPS context.Canceled (an abandoned request-scoped context of its own) although
+// the process still holds its role. To the engine it is an ordinary failure of the function: retried after the back-off.
+func (e userErr) Unwrap() error {
+	if e.code == 99 {
+		return context.Canceled
+	}
+	return nil
+}
+
 type engine struct {
 	lastCtl    workflow.RunStateController
 	lastCtlRun int
